@@ -3,6 +3,9 @@
 // No property formula, no expected value, no comparison here: TLC (Trace_Priors.tla) decides.
 //   c09_priors exact <out.ndjson> <n-configs> <big>   integer instances (quadratic: exact replay, RDP: fixed point)
 //   c09_priors rel   <out.ndjson> <n-configs> <big>   dyadic random images, all four priors: pairs of observations
+//   c09_priors hist  <out.ndjson> <n-objects> <big>   histories of setters / set_up / calls on one object, parameter files
+//                                                     (kappa and anatomical images written as Interfile next to <out>)
+//   c09_priors frp   <out.ndjson> <n-configs> <big>   FilterRootPrior (the other registered GeneralisedPrior)
 // <big> = 0: images up to ~60 voxels, 1: also the large shapes (up to 8x9x10).
 #include "vh_stir.h"
 #include "stir/VoxelsOnCartesianGrid.h"
@@ -11,6 +14,11 @@
 #include "stir/recon_buildblock/RelativeDifferencePrior.h"
 #include "stir/recon_buildblock/LogcoshPrior.h"
 #include "stir/recon_buildblock/PLSPrior.h"
+#include "stir/recon_buildblock/FilterRootPrior.h"
+#include "stir/MedianImageFilter3D.h"
+#include "stir/DataProcessor.h"
+#include "stir/IO/write_to_file.h"
+#include "stir/Succeeded.h"
 #include <functional>
 #include <sstream>
 #include <cstring>
@@ -834,6 +842,284 @@ static void run_rel(vh::Trace& tr, vh::Rng& rng, int idx, bool big) {
   }
 }
 
+// ---------------------------------------------------------------- histories on one object (set-up protocol, parameter files)
+static std::string g_filebase;
+static long file_id = 0;
+static std::string write_image_file(const Cfg& c, const std::vector<float>& v) {
+  std::string fn = g_filebase + "." + std::to_string(++file_id) + ".hv";
+  shared_ptr<Img> im = image_from(c, v);
+  write_to_file(fn, *im);
+  return fn;
+}
+// the parameter file text of a configuration (kappa / anatomical image through file names)
+static std::string parameter_text(const Cfg& c, const std::string& kappa_fn, const std::string& anat_fn) {
+  std::ostringstream s;
+  if (c.prior == "quad") s << "Quadratic Prior Parameters:=\n";
+  else if (c.prior == "rdp") s << "Relative Difference Prior Parameters:=\n";
+  else if (c.prior == "logcosh") s << "Logcosh Prior Parameters:=\n";
+  else s << "PLS Prior Parameters:=\n";
+  s << "penalisation factor:=" << c.beta << "\nonly 2D:=" << (c.only2D ? 1 : 0) << "\n";
+  if (c.prior == "rdp") s << "gamma value:=" << c.gamma << "\nepsilon value:=" << c.eps << "\n";
+  if (c.prior == "logcosh") s << "scalar:=" << c.scalar << "\n";
+  if (c.prior == "pls") s << "alpha:=" << c.alpha << "\neta:=" << c.eta << "\nanatomical_filename:=" << anat_fn << "\n";
+  if (c.prior != "pls" && c.userw) s << "weights:=" << weights_text(c) << "\n";
+  if (!kappa_fn.empty()) s << "kappa filename:=" << kappa_fn << "\n";
+  if (c.prior == "quad") s << "END Quadratic Prior Parameters:=\n";
+  else if (c.prior == "rdp") s << "END Relative Difference Prior Parameters:=\n";
+  else if (c.prior == "logcosh") s << "END Logcosh Prior Parameters:=\n";
+  else s << "END PLS Prior Parameters:=\n";
+  return s.str();
+}
+static shared_ptr<Prior> new_prior(const std::string& prior) {
+  if (prior == "quad") return shared_ptr<Prior>(new QuadraticPrior<float>());
+  if (prior == "rdp") return shared_ptr<Prior>(new RelativeDifferencePrior<float>());
+  if (prior == "logcosh") return shared_ptr<Prior>(new LogcoshPrior<float>());
+  return shared_ptr<Prior>(new PLSPrior<float>());
+}
+static void set_kappa(Prior& p, const std::string& prior, const shared_ptr<Img>& k) {
+  if (prior == "quad") dynamic_cast<QuadraticPrior<float>&>(p).set_kappa_sptr(k);
+  else if (prior == "rdp") dynamic_cast<RelativeDifferencePrior<float>&>(p).set_kappa_sptr(k);
+  else if (prior == "logcosh") dynamic_cast<LogcoshPrior<float>&>(p).set_kappa_sptr(k);
+  else dynamic_cast<PLSPrior<float>&>(p).set_kappa_sptr(k);
+}
+static void set_unit_weights(Prior& p, const std::string& prior) {
+  Array<3, float> w(IndexRange3D(-1, 1, -1, 1, -1, 1));
+  w.fill(1.F);
+  w[0][0][0] = 0.F;
+  if (prior == "quad") dynamic_cast<QuadraticPrior<float>&>(p).set_weights(w);
+  else if (prior == "rdp") dynamic_cast<RelativeDifferencePrior<float>&>(p).set_weights(w);
+  else if (prior == "logcosh") dynamic_cast<LogcoshPrior<float>&>(p).set_weights(w);
+}
+// one call of the API on image x; the outcome (error or not, and a fixed-point digest of the result) is recorded
+static void record_call(vh::Trace& tr, Prior& p, const Cfg& c, const char* fn, const Img& x) {
+  double v = 0;
+  std::vector<float> out;
+  bool err = false;
+  const std::string f = fn;
+  if (f == "value") err = vh::threw([&] { v = p.compute_value(x); });
+  else if (f == "gradient") err = vh::threw([&] { out = gradient(p, x); });
+  else if (f == "hessian") err = !hess_row(p, c, x, 0, out);
+  else if (f == "htimes") err = !hess_times(p, x, x, nullptr, c, out);
+  else err = vh::threw([&] { shared_ptr<Img> r(x.get_empty_copy()); p.add_multiplication_with_approximate_Hessian(*r, x); out = flat(*r); });
+  vh::Json j("Call");
+  j.str("fn", fn).boolean("err", err);
+  finish(tr, j);
+}
+
+static void run_hist(vh::Trace& tr, vh::Rng& rng, int idx) {
+  static const char* PR[] = { "quad", "rdp", "logcosh", "pls" };
+  Cfg c;
+  c.prior = PR[idx % 4];
+  const bool pls = c.prior == "pls";
+  static const int SH[][3] = { { 3, 3, 4 }, { 1, 4, 3 }, { 2, 2, 2 }, { 3, 1, 5 }, { 4, 5, 3 } };
+  const int* sh = SH[(idx / 4) % 5];
+  for (int a = 0; a < 3; ++a) c.n[a] = sh[a];
+  c.mn[0] = 0; c.mn[1] = -(c.n[1] / 2); c.mn[2] = -(c.n[2] / 2); // the index ranges images have after reading them from file
+  static const float SP[] = { 1.F, 1.5F, 2.F, 3.F, 4.F };
+  for (int a = 0; a < 3; ++a) c.sp[a] = SP[rng.range(0, 4)];
+  const int n = c.nvox();
+  static const float BETA[] = { 1.F, 0.5F, 2.F, 3.F };
+  c.beta = BETA[rng.range(0, 3)];
+  c.gamma = rng.coin() ? 2.F : 0.5F; c.eps = rng.coin() ? 1.F : 0.25F; c.scalar = rng.coin() ? 1.F : 2.F;
+  c.alpha = rng.coin() ? 1.F : 0.5F; c.eta = rng.coin() ? 1.F : 0.25F;
+  c.anat = random_dyadic(rng, n, 1, 63, 0.125F);
+  std::vector<float> xv = random_dyadic(rng, n, 1, 31, 0.125F);
+  shared_ptr<Img> x = image_from(c, xv);
+  int variant = (idx / 4) % 4;
+  if (pls && variant == 2) variant = 0; // (the anatomical image ties a PLS prior to one geometry)
+
+  if (variant <= 1) {
+    // ---- protocol: a history of setters, set_up and calls on one object
+    // the object is default-constructed, or (quadratic prior, every other time) constructed with the documented two-argument
+    // constructor in storage that does not happen to be zero-filled
+    const bool dirty = c.prior == "quad" && variant == 1;
+    shared_ptr<Prior> pp;
+    if (dirty) {
+      void* mem = ::operator new(sizeof(QuadraticPrior<float>));
+      std::memset(mem, 0xFF, sizeof(QuadraticPrior<float>));
+      pp.reset(new (mem) QuadraticPrior<float>(false, c.beta), [](Prior* q) { q->~Prior(); ::operator delete((void*)q); });
+    } else
+      pp = new_prior(c.prior);
+    Prior& p = *pp;
+    p.set_penalisation_factor(c.beta);
+    if (pls) dynamic_cast<PLSPrior<float>&>(p).set_anatomical_image_sptr(image_from(c, c.anat));
+    { vh::Json j("New"); j.num("id", ++cfg_id).str("prior", c.prior).str("mode", "P").arr("dims", std::vector<int>{ c.n[0], c.n[1], c.n[2] }).str("ctor", dirty ? "args" : "default"); finish(tr, j); }
+    // calls that do not check their arguments are never made with a kappa image of another size (they would read outside it)
+    auto unchecked = [&](const std::string& f) { return (c.prior == "rdp" && f == "htimes") || (c.prior == "logcosh" && f != "hessian" && f != "happrox"); };
+    static const char* FN[] = { "value", "gradient", "hessian", "htimes", "happrox" };
+    bool kappa_ok = true;
+    Cfg other = c;
+    other.n[2] = c.n[2] + 1; // an image with another index range
+    for (int step = 0; step < 14; ++step) {
+      const int a = step == 0 ? 0 : rng.range(0, 9);
+      if (a <= 4) {
+        const char* f = FN[step == 0 ? rng.range(0, 3) : a];
+        if (!kappa_ok && unchecked(f)) continue;
+        record_call(tr, p, c, f, *x);
+      } else if (a == 5 || a == 6) {
+        bool err = vh::threw([&] { p.set_up(x); });
+        vh::Json j("SetUp"); j.boolean("err", err); finish(tr, j);
+      } else if (a == 7) {
+        const bool match = rng.range(0, 2) != 0;
+        std::vector<float> kv = random_dyadic(rng, match ? n : other.nvox(), 4, 11, 0.25F);
+        set_kappa(p, c.prior, image_from(match ? c : other, kv));
+        kappa_ok = match;
+        vh::Json j("SetKappa"); j.boolean("match", match); finish(tr, j);
+      } else if (a == 8 && !pls) {
+        set_unit_weights(p, c.prior);
+        vh::Json j("SetWeights"); finish(tr, j);
+      } else {
+        p.set_penalisation_factor(c.beta * 2);
+        vh::Json j("SetBeta"); j.boolean("zero", false); finish(tr, j);
+      }
+    }
+    return;
+  }
+  if (variant == 2) {
+    // ---- one object used for images of two voxel sizes (set_up each time) against a fresh object
+    Cfg c2 = c;
+    for (int a = 0; a < 3; ++a) c2.sp[a] = SP[(rng.range(0, 3) + 1 + (int)(c.sp[a])) % 5];
+    c2.sp[0] = c.sp[0] == 4.F ? 1.F : 4.F;
+    c.only2D = c2.only2D = rng.range(0, 2) == 0 && !(pls && getenv("C09_SKIP_PLS2D"));
+    c.kappa = c2.kappa = rng.coin() ? random_dyadic(rng, n, 4, 11, 0.25F) : std::vector<float>();
+    shared_ptr<Img> xa = image_from(c, xv), xb = image_from(c2, xv);
+    Box used = make_prior(c, xa);
+    double va = 0; vh::threw([&] { va = used.p->compute_value(*xa); });
+    if (!c.kappa.empty()) set_kappa(*used.p, c.prior, image_from(c2, c.kappa)); // the kappa image for the new geometry
+    bool err = vh::threw([&] { used.p->set_up(xb); });
+    double vu = 0, vf = 0;
+    std::vector<float> gu, gf;
+    bool e1 = vh::threw([&] { vu = used.p->compute_value(*xb); gu = gradient(*used.p, *xb); });
+    Box fresh = make_prior(c2, xb);
+    bool e2 = vh::threw([&] { vf = fresh.p->compute_value(*xb); gf = gradient(*fresh.p, *xb); });
+    { vh::Json j("New"); j.num("id", ++cfg_id).str("prior", c.prior).str("mode", "P").arr("dims", std::vector<int>{ c.n[0], c.n[1], c.n[2] }).str("ctor", "default"); finish(tr, j); }
+    const int k = pick_k(std::max(std::max(std::fabs(vu), std::fabs(vf)), std::max(maxabs(gu), maxabs(gf))), 28);
+    vh::Json j("Fresh");
+    j.boolean("userw", false).boolean("only2D", c.only2D).boolean("hasKappa", !c.kappa.empty())
+        .arr("spA1000", std::vector<long long>{ std::llround(c.sp[0] * 1000), std::llround(c.sp[1] * 1000), std::llround(c.sp[2] * 1000) })
+        .arr("spB1000", std::vector<long long>{ std::llround(c2.sp[0] * 1000), std::llround(c2.sp[1] * 1000), std::llround(c2.sp[2] * 1000) })
+        .boolean("setUpErr", err).boolean("errUsed", e1).boolean("errFresh", e2).num("k", k).num("va", fxq(vu, k)).num("vb", fxq(vf, k)).arr("ga", fxv(gu, k)).arr("gb", fxv(gf, k));
+    finish(tr, j);
+    return;
+  }
+  // ---- parameter files: text -> object -> parameter_info -> object -> parameter_info, kappa / anatomical image from Interfile
+  {
+    if (!pls && rng.coin()) pick_weights(c, rng, rng.range(0, 5), false);
+    c.only2D = rng.range(0, 2) == 0 && !(pls && getenv("C09_SKIP_PLS2D"));
+    const bool with_kappa = rng.range(0, 2) != 0;
+    if (with_kappa) c.kappa = random_dyadic(rng, n, 4, 11, 0.25F);
+    const std::string kfn = with_kappa ? write_image_file(c, c.kappa) : std::string();
+    const std::string afn = pls ? write_image_file(c, c.anat) : std::string();
+    const std::string text = parameter_text(c, kfn, afn);
+    shared_ptr<Prior> p1 = new_prior(c.prior), p2 = new_prior(c.prior);
+    bool ok1 = false, ok2 = false;
+    std::istringstream in1(text);
+    if (vh::threw([&] { ok1 = p1->parse(in1); })) ok1 = false;
+    const std::string info1 = ok1 ? p1->parameter_info() : std::string();
+    std::istringstream in2(info1);
+    if (vh::threw([&] { ok2 = ok1 && p2->parse(in2); })) ok2 = false;
+    const std::string info2 = ok2 ? p2->parameter_info() : std::string();
+    // the same configuration through the setters (kappa / anatomical image from memory)
+    Cfg cs = c;
+    cs.parse_route = false;
+    Box direct = make_prior(cs, x);
+    double v1 = 0, v2 = 0, vd = 0;
+    std::vector<float> g1, g2, gd;
+    bool e1 = vh::threw([&] { p1->set_up(x); v1 = p1->compute_value(*x); g1 = gradient(*p1, *x); });
+    bool e2 = vh::threw([&] { p2->set_up(x); v2 = p2->compute_value(*x); g2 = gradient(*p2, *x); });
+    bool ed = vh::threw([&] { vd = direct.p->compute_value(*x); gd = gradient(*direct.p, *x); });
+    { vh::Json j("New"); j.num("id", ++cfg_id).str("prior", c.prior).str("mode", "P").arr("dims", std::vector<int>{ c.n[0], c.n[1], c.n[2] }).str("ctor", "default"); finish(tr, j); }
+    const int k = pick_k(std::max(std::max(std::fabs(v1), std::fabs(vd)), std::max(maxabs(g1), maxabs(gd))), 28);
+    vh::Json j("RoundTrip");
+    j.boolean("ok1", ok1).boolean("ok2", ok2).boolean("err1", e1).boolean("err2", e2).boolean("errDirect", ed || g_rejected).boolean("hasKappa", with_kappa).boolean("userw", c.userw)
+        .str("text", text).str("info1", info1).str("info2", info2).num("k", k)
+        .num("v1", fxq(v1, k)).num("v2", fxq(v2, k)).num("vd", fxq(vd, k)).arr("g1", fxv(g1, k)).arr("g2", fxv(g2, k)).arr("gd", fxv(gd, k));
+    finish(tr, j);
+  }
+}
+
+// ---------------------------------------------------------------- FilterRootPrior
+// a data processor of the harness: out = factor * in (the environment of the prior under test, not code under test)
+class ScaleProcessor : public DataProcessor<DD> {
+public:
+  explicit ScaleProcessor(float f) : factor(f) {}
+  std::string get_registered_name() const override { return "verif scale"; }
+protected:
+  Succeeded virtual_set_up(const DD&) override { return Succeeded::yes; }
+  void virtual_apply(DD& d) const override { for (auto it = d.begin_all(); it != d.end_all(); ++it) *it *= factor; }
+  void virtual_apply(DD& out, const DD& in) const override {
+    auto o = out.begin_all();
+    for (auto it = in.begin_all_const(); it != in.end_all_const(); ++it, ++o) *o = *it * factor;
+  }
+private:
+  float factor;
+};
+
+static void run_frp(vh::Trace& tr, vh::Rng& rng, int idx, bool big) {
+  Cfg c;
+  c.prior = "frp";
+  pick_shape(c, rng, idx, big, 720);
+  const int n = c.nvox();
+  static const float BETA[] = { 1.F, 0.5F, 2.F, 3.F, 0.F, -1.F };
+  c.beta = BETA[rng.range(0, 5)];
+  const int kind = idx % 4; // 0: median filter (the Median Root Prior), 1..: harness filters
+  shared_ptr<DataProcessor<DD>> filter;
+  int radius[3] = { 0, 0, 0 };
+  float factor = 0;
+  if (kind == 0) {
+    for (int a = 0; a < 3; ++a) radius[a] = rng.range(0, 1);
+    if (radius[0] + radius[1] + radius[2] == 0) radius[2] = 1;
+    filter.reset(new MedianImageFilter3D<float>(CartesianCoordinate3D<int>(radius[0], radius[1], radius[2])));
+  } else {
+    static const float FAC[] = { 0.5F, 2.F, 0.F, -4.F, 1.F, 0.0625F };
+    factor = FAC[rng.range(0, 5)];
+    filter.reset(new ScaleProcessor(factor));
+  }
+  const bool no_filter = idx % 11 == 10;
+  FilterRootPrior<DD> p(no_filter ? shared_ptr<DataProcessor<DD>>() : filter, c.beta);
+  shared_ptr<Img> target = make_image(c);
+  bool unset_err = false;
+  {
+    // use before set_up
+    shared_ptr<Img> g(target->get_empty_copy());
+    shared_ptr<Img> one(target->get_empty_copy());
+    one->fill(1.F);
+    FilterRootPrior<DD> q(filter, 1.F);
+    unset_err = vh::threw([&] { q.compute_gradient(*g, *one); });
+  }
+  p.set_up(target);
+  {
+    double v = 1;
+    std::vector<float> row;
+    bool herr = !hess_row(p, c, *target, 0, row);
+    vh::threw([&] { v = p.compute_value(*target); });
+    vh::Json j("Config");
+    j.num("id", ++cfg_id).str("prior", "frp").str("mode", "R").arr("dims", std::vector<int>{ c.n[0], c.n[1], c.n[2] }).arr("mins", std::vector<int>{ c.mn[0], c.mn[1], c.mn[2] })
+        .str("filter", no_filter ? "none" : (kind == 0 ? "median" : "scale")).arr("radius", std::vector<int>{ radius[0], radius[1], radius[2] }).num("factor1024", (long long)std::llround(factor * 1024))
+        .num("beta8", (long long)std::llround(c.beta * 8)).boolean("convex", p.is_convex()).boolean("hessErr", herr).num("value1024", fxq(v, 10)).boolean("unsetErr", unset_err);
+    finish(tr, j);
+  }
+  for (int im = 0; im < 3; ++im) {
+    // images of powers of two (and zeros): quotients are exact
+    std::vector<float> xv(n);
+    for (auto& q : xv) { const int e = rng.range(-1, 5); q = e < 0 ? 0.F : (float)(1 << e); }
+    if (im == 1) xv.assign(n, (float)(1 << rng.range(0, 4))); // a uniform image
+    if (im == 2 && n > 1) { xv.assign(n, 0.03125F); xv[rng.range(0, n - 1)] = 64.F; }
+    shared_ptr<Img> x = image_from(c, xv);
+    std::vector<float> fv(n, 0.F);
+    if (!no_filter) { shared_ptr<Img> f(x->get_empty_copy()); filter->apply(*f, *x); fv = flat(*f); }
+    std::vector<float> g;
+    bool err = vh::threw([&] { g = gradient(p, *x); });
+    long long res = 0, resf = 0, resx = 0;
+    auto gm = fxv(g, 10, &res);
+    auto fm = fxv(fv, 11, &resf);
+    auto xm = fxv(xv, 11, &resx);
+    vh::Json j("FRGrad");
+    j.boolean("err", err).boolean("uniform", im == 1).num("kx", 11).arr("x", xm).arr("f", fm).num("k", 10).arr("g", gm).num("resf", std::max(resf, resx)).num("res", res);
+    finish(tr, j);
+  }
+}
+
 int main(int argc, char** argv) {
   if (argc < 5) { fprintf(stderr, "usage: c09_priors exact|rel <out> <n> <big>\n"); return 2; }
   vh::quiet();
@@ -841,13 +1127,16 @@ int main(int argc, char** argv) {
   vh::install_terminate();
   const std::string mode = argv[1];
   vh::Trace tr(argv[2]);
+  g_filebase = std::string(argv[2]) + ".img";
   const int nconf = atoi(argv[3]);
   const bool big = atoi(argv[4]) != 0;
-  vh::Rng rng(vh::seed_from_env() * 1000 + (mode == "exact" ? 1 : 2));
+  vh::Rng rng(vh::seed_from_env() * 1000 + (mode == "exact" ? 1 : (mode == "rel" ? 2 : (mode == "hist" ? 3 : 4))));
   const int off = (int)((vh::seed_from_env() - 1) * 7);
   for (int i = 0; i < nconf; ++i) {
     if (mode == "exact") run_exact(tr, rng, i + off, big);
-    else run_rel(tr, rng, i + off, big);
+    else if (mode == "rel") run_rel(tr, rng, i + off, big);
+    else if (mode == "hist") run_hist(tr, rng, i + off);
+    else run_frp(tr, rng, i + off, big);
     tr.flush();
   }
   return 0;
